@@ -61,6 +61,11 @@ theorem handover_buffer_intact (buffered tls : Bytes) (h1 : buffered.length < 42
   simp only [List.append_nil] at this
   simp [handover, this]
 
+/-- with the regenerated allocation of the inherited buffer no amount of buffered bytes makes the new process drop
+the connection it has just taken over (before the fix: 64, 128, 256, … bytes did) -/
+theorem adopted_connection_survives (n : Nat) : adoptedSurvives n = true := by
+  simp [adoptedSurvives, Gen.Transfer.inheritedBufferSpare]
+
 /-- the type byte tells a read transfer (with fd) from a write transfer -/
 theorem transfer_type_distinguishes : recvIsWrite (typeByte false) = true ∧ recvIsWrite (typeByte true) = false := by decide
 
